@@ -78,7 +78,7 @@ def run_harness(args, stdin_obj=None, timeout=1800, race=False, env_extra=None, 
     except subprocess.TimeoutExpired:
         raise Inconclusive('harness timeout: %s' % ' '.join(args))
     if p.returncode != 0:
-        sys.stderr.write(p.stderr[-4000:])
+        sys.stderr.write(p.stderr[:3000] + '\n...\n' + p.stderr[-3000:] if len(p.stderr) > 6000 else p.stderr)
         raise Inconclusive('harness exit %d: %s' % (p.returncode, ' '.join(args)))
     try:
         return json.loads(p.stdout)
